@@ -44,7 +44,7 @@ def run(ctx):
     # trick: two actions with swapped uids are *sent*, the comparison is by uid -> names differ.
     corpus = ctx.path("c18-corpus.ndjson")
     res = ctx.harness_json("grammar", ["c18", vec, corpus], timeout=3000)
-    if res["evaluations"] < n:
+    if res["evaluations"] < n and not res.get("failures"):
         raise Infra("harness replayed %d of %d interfaces" % (res["evaluations"], n))
     ctx.traces += res["evaluations"] + int((res.get("extra") or {}).get("packages_of_three", 0))
     ctx.failures(res["failures"])
